@@ -229,42 +229,42 @@ package xmlenc
 //@ contract OAEP$1
 //@ requires[cfg] dm: e.DigestMethod != nil && pubKey != nil
 //@ assert@call[C10] Hash #each (dm DigestMethod) digest_of_value: dm == e.DigestMethod
-//@ assert@call[C10] EncryptOAEP #each (h hash.Hash, r io.Reader, pk *rsa.PublicKey, msg []byte, label []byte) wraps_key:
+//@ assert@call[C10] EncryptOAEP #0 (h hash.Hash, r io.Reader, pk *rsa.PublicKey, msg []byte, label []byte) wraps_key:
 //@    r == RandReader && pk == pubKey && sameSlice(msg, plaintext) && len(label) == 0
 //@ contract OAEP$2
 //@ requires[cfg] dm: e.DigestMethod != nil && privKey != nil
 //@ assert@call[C10] Hash #each (dm DigestMethod) digest_of_value: dm == e.DigestMethod
-//@ assert@call[C10] DecryptOAEP #each (h hash.Hash, r io.Reader, sk *rsa.PrivateKey, ct []byte, label []byte) unwraps_key:
+//@ assert@call[C10] DecryptOAEP #0 (h hash.Hash, r io.Reader, sk *rsa.PrivateKey, ct []byte, label []byte) unwraps_key:
 //@    sk == privKey && sameSlice(ct, ciphertext) && len(label) == 0
 //@ contract OAEP_SHA256$1
 //@ requires[cfg] dm: e.DigestMethod != nil && pubKey != nil
 //@ assert@call[C10] Hash #each (dm DigestMethod) digest_of_value: dm == e.DigestMethod
-//@ assert@call[C10] EncryptOAEP #each (h hash.Hash, r io.Reader, pk *rsa.PublicKey, msg []byte, label []byte) wraps_key:
+//@ assert@call[C10] EncryptOAEP #0 (h hash.Hash, r io.Reader, pk *rsa.PublicKey, msg []byte, label []byte) wraps_key:
 //@    r == RandReader && pk == pubKey && sameSlice(msg, plaintext) && len(label) == 0
 //@ contract OAEP_SHA256$2
 //@ requires[cfg] dm: e.DigestMethod != nil && privKey != nil
 //@ assert@call[C10] Hash #each (dm DigestMethod) digest_of_value: dm == e.DigestMethod
-//@ assert@call[C10] DecryptOAEP #each (h hash.Hash, r io.Reader, sk *rsa.PrivateKey, ct []byte, label []byte) unwraps_key:
+//@ assert@call[C10] DecryptOAEP #0 (h hash.Hash, r io.Reader, sk *rsa.PrivateKey, ct []byte, label []byte) unwraps_key:
 //@    sk == privKey && sameSlice(ct, ciphertext) && len(label) == 0
 //@ contract OAEP_SHA512$1
 //@ requires[cfg] dm: e.DigestMethod != nil && pubKey != nil
 //@ assert@call[C10] Hash #each (dm DigestMethod) digest_of_value: dm == e.DigestMethod
-//@ assert@call[C10] EncryptOAEP #each (h hash.Hash, r io.Reader, pk *rsa.PublicKey, msg []byte, label []byte) wraps_key:
+//@ assert@call[C10] EncryptOAEP #0 (h hash.Hash, r io.Reader, pk *rsa.PublicKey, msg []byte, label []byte) wraps_key:
 //@    r == RandReader && pk == pubKey && sameSlice(msg, plaintext) && len(label) == 0
 //@ contract OAEP_SHA512$2
 //@ requires[cfg] dm: e.DigestMethod != nil && privKey != nil
 //@ assert@call[C10] Hash #each (dm DigestMethod) digest_of_value: dm == e.DigestMethod
-//@ assert@call[C10] DecryptOAEP #each (h hash.Hash, r io.Reader, sk *rsa.PrivateKey, ct []byte, label []byte) unwraps_key:
+//@ assert@call[C10] DecryptOAEP #0 (h hash.Hash, r io.Reader, sk *rsa.PrivateKey, ct []byte, label []byte) unwraps_key:
 //@    sk == privKey && sameSlice(ct, ciphertext) && len(label) == 0
 //@ contract PKCS1v15$1
 //@ requires[cfg] key: pubKey != nil
-//@ assert@call[C10] EncryptPKCS1v15 #each (r io.Reader, pk *rsa.PublicKey, msg []byte) wraps_key:
+//@ assert@call[C10] EncryptPKCS1v15 #0 (r io.Reader, pk *rsa.PublicKey, msg []byte) wraps_key:
 //@    r == RandReader && pk == pubKey && sameSlice(msg, plaintext)
 //@ contract PKCS1v15$2
 //@ requires[cfg] key: privKey != nil
 //@ -- rsa.DecryptPKCS1v15 returns the message whatever its length: the key size is not tied to the block cipher the
 //@ -- registered instance happens to carry
-//@ assert@call[C10] DecryptPKCS1v15 #each (r io.Reader, sk *rsa.PrivateKey, ct []byte) unwraps_key:
+//@ assert@call[C10] DecryptPKCS1v15 #0 (r io.Reader, sk *rsa.PrivateKey, ct []byte) unwraps_key:
 //@    sk == privKey && sameSlice(ct, ciphertext)
 
 //@ -- constructors: modes and their identifiers, with both closures present
